@@ -3,6 +3,7 @@ package checks
 import (
 	"fmt"
 	"math"
+	"os"
 	"testing"
 
 	"github.com/sahandsafizadeh/qeep/component/layers"
@@ -155,7 +156,32 @@ func checkC11(c C11Case) *Failure {
 			}
 		}
 		if !finite {
+			// the library still performs the remaining steps (nothing is compared any more):
+			// whatever a diverged run leaves behind in the process must not reach later models
 			evid.Discard("diverged_trajectory")
+			for _, rest := range c.Steps[si:] {
+				if rest.Batch < 1 || len(rest.X) != rest.Batch*c.F {
+					break
+				}
+				if y, err := fc.Forward(lib.MustNew([]int{rest.Batch, c.F}, rest.X, false)); err == nil {
+					if a, err := actForward(y); err == nil {
+						ts := []int{rest.Batch, c.O}
+						if c.Loss != "ce" {
+							ts = []int{rest.Batch * c.O}
+							a, _ = a.Reshape([]int{rest.Batch * c.O})
+						}
+						if a != nil && len(rest.T) == rest.Batch*c.O {
+							if l, err := compute(a, lib.MustNew(ts, rest.T, false)); err == nil {
+								_ = tensor.BackPropagate(l)
+								_ = opt.Update(ws[0].Value)
+								_ = opt.Update(ws[1].Value)
+								(*ws[0].Value).ResetGradContext(true)
+								(*ws[1].Value).ResetGradContext(true)
+							}
+						}
+					}
+				}
+			}
 			break
 		}
 		// the library's step
@@ -259,6 +285,23 @@ func checkC11(c C11Case) *Failure {
 			}
 			return failf("step %d (batch %d, %s -> %s, lr %v): %s[%d] moved from %v to %v, gradient descent gives %v (dLoss/d%s = %v)", si, st.Batch, c.Act.Kind, c.Loss, lr, par.name, bad, par.old[bad], nv[bad], par.old[bad]-lr*par.g[bad], par.name, par.g[bad])
 		}
+		if st.Batch%2 == 1 {
+			// an evaluation pass with the updated parameters, before they are reset
+			ey, err := fc.Forward(x)
+			if err != nil {
+				return failf("step %d: evaluation Forward after the update failed: %v", si, err)
+			}
+			_, nw, _ := lib.Read(*ws[0].Value)
+			_, nb, _ := lib.Read(*ws[1].Value)
+			ew := refFC(nil, ref.FromVals([]int{st.Batch, c.F}, st.X), ref.FromVals([]int{c.O}, nw), ref.FromVals([]int{c.O}, nb))
+			sc := make([]float64, len(ew.E))
+			for k := range sc {
+				sc[k] = 1 + math.Abs(ew.E[k].V)
+			}
+			if f := compareTensor(fmt.Sprintf("step %d: evaluation Forward with the updated parameters", si), ey, ew, cmpTol, sc); f != nil {
+				return f
+			}
+		}
 		if st.SkipReset {
 			stale = true
 		} else {
@@ -292,7 +335,71 @@ func checkC11(c C11Case) *Failure {
 	return nil
 }
 
+// divergedPrehistory runs, once per process, blown-up models (weights 1e308: pre-activations,
+// losses and gradients are Inf / NaN) of every small shape through forward, loss,
+// back-propagation, update and reset. Nothing such a run leaves behind in the process may
+// reach the healthy models generated afterwards ("nothing from an earlier step leaks").
+func divergedPrehistory() {
+	for _, act := range []string{"relu", "leaky", "sigmoid", "tanh", "softmax"} {
+		for _, loss := range []string{"mse", "bce", "ce"} {
+			for b := 1; b <= 5; b++ {
+				for o := 1; o <= 4; o++ {
+					fc, err := layers.NewFC(&layers.FCConfig{Inputs: 2, Outputs: o})
+					if err != nil {
+						continue
+					}
+					ws := fc.Weights()
+					huge := make([]float64, o)
+					for i := range huge {
+						huge[i] = 1e308 * float64(1-2*(i%2))
+					}
+					*ws[0].Value = lib.MustNew([]int{o}, huge, true)
+					*ws[1].Value = lib.MustNew([]int{o}, huge, true)
+					xv := make([]float64, b*2)
+					for i := range xv {
+						xv[i] = 3 + float64(i)
+					}
+					y, err := fc.Forward(lib.MustNew([]int{b, 2}, xv, false))
+					if err != nil {
+						continue
+					}
+					fw, err := ActCase{Kind: act, NilConf: true}.layer()
+					if err != nil {
+						continue
+					}
+					a, err := fw(y)
+					if err != nil {
+						continue
+					}
+					ts := []int{b, o}
+					if loss != "ce" {
+						ts = []int{b * o}
+						if a, err = a.Reshape(ts); err != nil {
+							continue
+						}
+					}
+					l, err := newLoss(loss)(a, lib.MustNew(ts, make([]float64, b*o), false))
+					if err != nil {
+						continue
+					}
+					_ = tensor.BackPropagate(l)
+					opt := optimizers.NewSGD(nil)
+					_ = opt.Update(ws[0].Value)
+					_ = opt.Update(ws[1].Value)
+					(*ws[0].Value).ResetGradContext(true)
+					(*ws[1].Value).ResetGradContext(true)
+				}
+			}
+		}
+	}
+}
+
 func TestC11_training(t *testing.T) {
+	if sh := os.Getenv("VERIF_SHARD"); sh != "" && sh != "0" {
+		// every shard but the first starts its process with a diverged history
+		divergedPrehistory()
+		evid.Class("C11.process_started_with_diverged_models")
+	}
 	run(t, 4000, func(rt *rapid.T) {
 		c := genC11(rt)
 		if f := guard(func() *Failure { return checkC11(c) }); f != nil {
